@@ -8,7 +8,7 @@
 use crate::core::*;
 use crate::engine::*;
 use crate::genapi::AnyInput;
-use crate::monitor::c05::{AK, AK2, auth_cfg, now_unix, secrets};
+use crate::monitor::c05::{auth_cfg, now_unix, secrets};
 use crate::oracle::sig::*;
 use serde_json::{Value, json};
 use std::collections::HashMap;
@@ -138,7 +138,7 @@ pub fn gen_upload_to(g: &mut Rng, secrets: &HashMap<String, String>, small: bool
         };
         chunks.push(g.bytes(sz));
     }
-    let ak = if g.chance(3, 4) { AK } else { AK2 };
+    let ak = crate::monitor::c05::pick_ak(g);
     let params = V4Params { access_key: ak.into(), secret: secrets[ak].clone(), amz_date: unix_to_amz_date(now_unix() + g.range(-100, 100)), region: "us-east-1".into(), service: "s3".into() };
     let total: usize = chunks.iter().map(Vec::len).sum();
     let bucket = format!("b{}", g.lower_alnum(5));
